@@ -533,7 +533,7 @@ func runBFS(ctx context.Context, w *rec.Writer, rigs map[int]*rig, seed uint64, 
 			wg.Add(1)
 			go func(k int) {
 				defer wg.Done()
-				got[k], _ = env.Check(ctx, ch.r, gname(c.Start), "member", "user:a", nil)
+				got[k] = checkDL(ctx, env, ch.r, gname(c.Start), "member", "user:a")
 			}(k)
 		}
 		wg.Wait()
